@@ -40,7 +40,9 @@ ASSUMPTIONS = ['marshal_rt (monitored on every value): marshal.loads(marshal.dum
                'node_ok / node_dt (C24): unencoded fields of errors and stubs are marshalable, no str-subclass dict keys, dates inside the '
                'calendar, datetimes a day inside it',
                'the observation of a cell by a formula is a function of the column and the raw object (monitored by reading twice)',
-               'Node-side number typing and volatile formulas are outside the property; documents are clean and acyclic (histgen)',
+               'Node-side number typing and volatile formulas are outside the property; documents are clean and acyclic (histgen); a formula '
+               'whose text result shows the memory address of an object (default repr, e.g. str() of an UnmarshallableValue) is volatile: '
+               'addresses are scrubbed and an update that only changes one is not counted',
                'objects with user-defined __eq__ and NaN inside containers (CPython identity shortcut) are outside the modelled domain of ==']
 TECHNIQUE = 'Coq proof over a hand-written executable model of the load path + differential cases (vm_compute) + real reload of generated documents'
 LEVEL_TEXT = ('Kernel-checked theorems about the model of the load path, for every column type, any recursion fuel, arbitrary library '
@@ -863,6 +865,11 @@ def lossy_cells(e, f):
             stub = type(a).__name__ in ('RecordStub', 'RecordSetStub', 'UnmarshallableValue') and type(a) is type(b) and vars(a) == vars(b)
           except Exception:
             stub = False
+          tn0 = type(col.type_obj).__name__
+          if stub and tn0 in ('Any', 'Blob'):
+            # an equal-looking stand-in, but these classes compare by identity: the reloaded object is not the one other
+            # cells (group keys of a summary table, lookup keys) were matched with
+            out.append((t, cid, r, 'ident'))
           if not stub:
             # only objects of the known lossy classes count as the known finding; a differing cell whose saved object is
             # made of None/bool/short int/float/str/list/str-keyed dict/date only is something else
@@ -886,18 +893,57 @@ def raw_clone(e):
   return f, out
 
 
-def outcome(f, out):
+_ADDR = None
+
+
+def scrub(x):
+  """Memory addresses in the default repr of objects (`<objtypes.UnmarshallableValue object at 0x7f..>`, produced by formulas
+  like str($A)) are not document data: a formula showing them is volatile in the sense of the property."""
+  global _ADDR
+  import re
+  if _ADDR is None:
+    _ADDR = re.compile(r' at 0x[0-9a-fA-F]+>')
+  if isinstance(x, str):
+    return _ADDR.sub(' at 0x?>', x) if ' at 0x' in x else x
+  if isinstance(x, list):
+    return [scrub(i) for i in x]
+  if isinstance(x, dict):
+    return dict((k, scrub(v)) for k, v in x.items())
+  return x
+
+
+def outcome(f, out, saved=None):
+  """(tables, stored actions) of a load, addresses scrubbed; an update that only rewrites an address-bearing text to the
+  same text with another address (saved: the scrubbed tables of the saved engine) is dropped."""
   from harness import gristenv as G
-  return G.snapshot(f), G.norm(G.reprs(out.stored))
+  stored = scrub(G.norm(G.reprs(out.stored)))
+  if saved is not None:
+    kept = []
+    for a in stored:
+      if a and a[0] in ('UpdateRecord', 'BulkUpdateRecord') and a[1] in saved:
+        rows = [a[2]] if a[0] == 'UpdateRecord' else a[2]
+        ids = saved[a[1]]['ids']
+        volatile = True
+        for c, vals in a[3].items():
+          vals = [vals] if a[0] == 'UpdateRecord' else vals
+          col = saved[a[1]]['cols'].get(c)
+          for r, v in zip(rows, vals):
+            if not (col is not None and r in ids and isinstance(v, str) and ' at 0x?>' in v and col[ids.index(r)] == v):
+              volatile = False
+        if volatile:
+          continue
+      kept.append(a)
+    stored = kept
+  return scrub(G.snapshot(f)), stored
 
 
 def check_reload(e, classify=True):
   """[] or a list of (kind, description): what reopening the document `e` reports changes."""
   from harness import gristenv as G
-  s1 = G.snapshot(e)
+  s1 = scrub(G.snapshot(e))
   quiet = (s1, [])
   try:
-    got = outcome(*real_reload(e))
+    got = outcome(*real_reload(e), saved=s1)
   except Exception:
     return [('reload-raises', 'loading the saved document raised: ' + traceback.format_exc()[-300:])]
   if got == quiet:
@@ -910,7 +956,7 @@ def check_reload(e, classify=True):
   # that already changes something is recalculation from scratch disagreeing with the incremental state: C05's subject.
   target = quiet
   try:
-    base = outcome(*raw_clone(e))
+    base = outcome(*raw_clone(e), saved=s1)
   except Exception:
     base = None
   if base is not None and base != quiet:
@@ -922,6 +968,7 @@ def check_reload(e, classify=True):
   f = real_reload(e)[0]
   cells = lossy_cells(e, f)
   for modes, kind in ((('err',), 'decoded_error_cell_loses_error'), (('rich',), 'rich_cell_value_not_restored'),
+                      (('rich', 'ident'), 'rich_cell_value_not_restored'),
                       (('dtmax',), 'datetime_end_of_calendar'), (('rich', 'dtmax'), 'lossy_cells_mixed'),
                       (('err', 'rich', 'dtmax'), 'lossy_cells_mixed_with_error')):
     sel = [c for c in cells if c[3] in modes]
@@ -938,7 +985,7 @@ def check_reload(e, classify=True):
         else:
           col._data[r] = a
     try:
-      got2 = outcome(*real_reload(e, hook))
+      got2 = outcome(*real_reload(e, hook), saved=s1)
     except Exception:
       continue
     if got2 == target:
